@@ -10,7 +10,7 @@ import (
 )
 
 // detVerdict calls the real cbor.Deterministic under recover() and a watchdog.
-// Verdicts: "nil" (accepted), "error", "panic", "timeout".
+// Verdicts: "nil" (accepted), "error", "panic", "timeout", "unstable" (depends on the memory behind the slice).
 func detVerdict(b []byte, limit time.Duration) string {
 	ch := make(chan string, 1)
 	go func() {
@@ -21,7 +21,29 @@ func detVerdict(b []byte, limit time.Duration) string {
 		}()
 		in := make([]byte, len(b)) // exact capacity: no spare bytes behind the input
 		copy(in, b)
-		if err := verifapi.CborDeterministic(in); err != nil {
+		exact := verifapi.CborDeterministic(in) == nil
+		// the same bytes as a prefix of a larger buffer (a reused read buffer, a sub-slice): the verdict is a function of
+		// the byte string, not of what happens to lie behind it in memory
+		for _, fill := range []byte{0x00, 0xff, 0x61} {
+			big := make([]byte, len(b)+12)
+			copy(big, b)
+			for i := len(b); i < len(big); i++ {
+				big[i] = fill
+			}
+			loose := func() (ok bool) {
+				defer func() {
+					if r := recover(); r != nil {
+						ok = false
+					}
+				}()
+				return verifapi.CborDeterministic(big[:len(b)]) == nil
+			}()
+			if loose != exact {
+				ch <- "unstable"
+				return
+			}
+		}
+		if !exact {
 			ch <- "error"
 		} else {
 			ch <- "nil"
@@ -60,6 +82,9 @@ func cbordetEnum(args []string) error {
 		counts[v]++
 		if v == "nil" {
 			emit(map[string]interface{}{"acc": ints(s)})
+		}
+		if v == "unstable" {
+			emit(map[string]interface{}{"unstable": ints(s)})
 		}
 		if v == "timeout" {
 			timeouts++
